@@ -48,10 +48,45 @@ def mk_grid(shape, dtype, name_off):
 
 
 def judge_io(shape, dtype, name_off, fmt, tmpdir):
-    from nuspacesim.utils.grid import NssGrid
-
     g = mk_grid(tuple(shape), dtype, name_off)
     fn = os.path.join(tmpdir, f"g_{'x'.join(map(str, shape))}_{dtype}_{name_off}.{'h5' if fmt == 'hdf5' else 'fits'}")
+    return _io_roundtrip(g, fn, fmt)
+
+
+DERIVED = [("slice", 0, 0.5), ("slice", 0, 0.3), ("slice", 1, 0.25), ("slice", 1, 5.0), ("slice", 2, 4.0), ("slice", 2, 3.0),
+           ("slice2", 0, 0.3, 0, 0.1), ("slice2", 0, 0.3, 1, 3.0), ("slice2", 1, 5.0, 0, 0.5), ("slice2", 2, 3.0, 0, 1.0), ("slice2", 1, 0.25, 1, 2.0),
+           ("reread",), ("reread_slice", 0, 0.3), ("reread_slice", 1, 5.0)]
+
+
+def judge_derived_io(how, fmt, tmpdir):
+    """a grid OBTAINED from another grid (a slice along any axis, a slice of a slice, a grid read back from a file, a
+    slice of such a grid) is written and read back unchanged, names included"""
+    from nuspacesim.utils.grid import NssGrid
+    from nuspacesim.utils.interp import grid_slice_interp
+
+    ext = "h5" if fmt == "hdf5" else "fits"
+    g = slice_grid("synthetic_f8")
+    tag = "_".join(str(x) for x in how).replace(".", "p")
+    try:
+        if how[0] in ("reread", "reread_slice"):
+            f0 = os.path.join(tmpdir, f"d0_{tag}.{ext}")
+            if os.path.exists(f0):
+                os.remove(f0)
+            g.write(f0, format=fmt)
+            g = NssGrid.read(f0, format=fmt)
+            os.remove(f0)
+        if how[0] in ("slice", "slice2", "reread_slice"):
+            g = grid_slice_interp(g, how[2], how[1])
+        if how[0] == "slice2":
+            g = grid_slice_interp(g, how[4], how[3])
+    except Exception as ex:
+        return [("io_roundtrip", f"the derived grid {how}", f"{type(ex).__name__}: {str(ex)[:80]}")]
+    return _io_roundtrip(g, os.path.join(tmpdir, f"d_{tag}.{ext}"), fmt)
+
+
+def _io_roundtrip(g, fn, fmt):
+    from nuspacesim.utils.grid import NssGrid
+
     if os.path.exists(fn):
         os.remove(fn)
     out = []
@@ -176,6 +211,9 @@ def slice_grid(which):
         data = (((np.arange(n) * 37.0 + 11.0) % 101.0 - 50.0) / 7.0).reshape(shape)
         axes = [np.array([0.0, 0.5, 2.0]), np.array([-1.0, 0.0, 0.25, 10.0]), np.array([1.0, 2.0, 4.0, 8.0, 16.0])]
         return NssGrid(data, axes, ["p", "q r", "s"])
+    if which == "synthetic_offset":
+        # coordinates that are large compared with their spacing (radii in metres, times in seconds)
+        return NssGrid(np.arange(6 * 3, dtype=np.float64).reshape(6, 3) ** 2, [6371000.0 + 25.0 * np.arange(6), np.array([0.0, 1.0, 2.0])], ["r", "k"])
     if which == "synthetic_i8":
         return NssGrid(np.arange(8 * 16).reshape(8, 16), [np.arange(8) * 1.0, np.arange(16) * 2.0], ["x", "y"])
     kind, ver = which.split(".")
@@ -380,10 +418,16 @@ def run(ctx):
                 for c, e, o in judge_h5_history(seq, tmp):
                     ctx.violation(c, {"kind": "h5_hist", "seq": [list(x) for x in seq]}, e, o)
         ctx.cov["hdf5_multi_path_write_histories"] = n_h
+        for how in DERIVED:
+            for fmt in ("hdf5", "fits"):
+                n_io += 1
+                ctx.tick(1, ("derived_io", how[0], fmt))
+                for c, e, o in judge_derived_io(how, fmt, tmp):
+                    ctx.violation(c, {"kind": "derived_io", "how": list(how), "fmt": fmt}, e, o)
         ctx.cov["io_roundtrips"] = n_io
         ctx.sample({"kind": "io", "shape": [2, 3], "dtype": "i2", "names": [NAMES[2], NAMES[3]], "fmt": "fits"})
         # (b) slicing
-        whichs = ["synthetic_f8", "synthetic_i8", "cdf.3", "pexit.3"] + (["cdf.1", "cdf.2", "pexit.1", "pexit.2"] if tier == "thorough" else [])
+        whichs = ["synthetic_f8", "synthetic_i8", "synthetic_offset", "cdf.3", "pexit.3"] + (["cdf.1", "cdf.2", "pexit.1", "pexit.2"] if tier == "thorough" else [])
         n_sl = 0
         for w in whichs:
             g = slice_grid(w)
@@ -392,6 +436,10 @@ def run(ctx):
                 pts = []
                 for i in range(len(ax)):
                     pts.append((float(ax[i]), "node"))
+                    for near in (float(ax[i]) * (1 + 3e-6), float(ax[i]) * (1 - 3e-6)):
+                        # a coordinate a few parts per million away from a node is not the node
+                        if ax[0] < near < ax[-1] and near not in ax:
+                            pts.append((near, "near_node"))
                     if i + 1 < len(ax):
                         pts.append((float(0.5 * (ax[i] + ax[i + 1])), "mid"))
                         pts.append((float(ax[i] + 0.25 * (ax[i + 1] - ax[i])), "quarter"))
@@ -495,6 +543,11 @@ def replay(case):
             return judge_h5_history([tuple(x) for x in case["seq"]], tmp)
         finally:
             shutil.rmtree(tmp, ignore_errors=True)
+    if k == "derived_io":
+        import tempfile
+
+        with tempfile.TemporaryDirectory(prefix="nssmc_c18r_") as td:
+            return judge_derived_io(tuple(case["how"]), case["fmt"], td)
     if k == "slice":
         return judge_slice(case["which"], case["axis"], case["by_name"], case["value"])
     if k == "interp":
